@@ -6,6 +6,15 @@ func register(c *PropConfig) { propConfigs[c.ID] = c }
 
 func init() {
 	register(&PropConfig{
+		ID:       "C05",
+		Replay:   replayC05,
+		Packages: []string{"./safehtml", "./runtime", "."},
+		Assume: []string{
+			"CSS_VALUE_SAFE / CSS_NAME_SAFE (contracts/lang/css.lang) formalise CSS Syntax 3 tokenisation of a declaration value and the property's allow-list (only url(), schemes http/https/mailto); written from the standard and the property text; sanity examples include every value the repository's tests expect to pass",
+			"regexp.MatchString = membership in the language of the pattern literal (byte-level translation; non-ASCII runes of negated classes over-approximated)",
+		},
+	})
+	register(&PropConfig{
 		ID:         "C12",
 		Packages:   []string{"."},
 		Corpus:     true,
